@@ -261,6 +261,8 @@ type WrapHost struct {
 	Connects   []peer.ID
 	OnNewStrm  func(p peer.ID)
 	WriteCount map[peer.ID]int
+	// OnConnect, when set, is called (outside the lock) at every Connect call before it is forwarded (X06: time-stamped dials).
+	OnConnect func(pi peer.AddrInfo)
 }
 
 func Wrap(h host.Host) *WrapHost {
@@ -271,7 +273,11 @@ func Wrap(h host.Host) *WrapHost {
 func (w *WrapHost) Connect(ctx context.Context, pi peer.AddrInfo) error {
 	w.mu.Lock()
 	w.Connects = append(w.Connects, pi.ID)
+	hook := w.OnConnect
 	w.mu.Unlock()
+	if hook != nil {
+		hook(pi)
+	}
 	return w.Host.Connect(ctx, pi)
 }
 
